@@ -2,6 +2,7 @@ package mon
 
 import (
 	"fmt"
+	"sort"
 	"strings"
 
 	"verif/internal/xdoc"
@@ -246,6 +247,7 @@ func init() {
 		Families: []Family{
 			witnessFamily("C17"),
 			{Name: "damage", N: tierN(40000, 1000000), Run: c17Damage},
+			{Name: "argdamage", N: func(string) int { return len(xref.FuncArity) }, Run: c17ArgDamage},
 		},
 	})
 }
@@ -424,4 +426,73 @@ func operandEndTok(t xref.Tok) bool {
 		return !t.Op
 	}
 	return false
+}
+
+// c17ArgDamage: damage the builder (not the parser) has to report - a function renamed to an unknown name, a
+// function robbed of its required arguments, an unknown axis name - placed in EVERY argument position of EVERY
+// function of the library (arities min ... max, concat up to 5), plain and inside a predicate / a path / an operator.
+// An error that is dropped for one optional argument of one function shows here and nowhere else.
+var c17ArgDefaults = []string{"a", "'s'", "1", "@x", "string(b)"}
+var c17ArgBroken = []struct{ class, valid, damaged string }{
+	{"unknown-function", "count(b)", "nosuchfn(b)"},
+	{"remove-args", "count(b)", "count()"},
+	{"unknown-axis", "child::b", "chil::b"},
+	{"unknown-function", "string(b/c)", "strin(b/c)"},
+	{"remove-args", "contains(b, 'x')", "contains()"},
+	{"unknown-axis", "b[ancestor::c]", "b[ancestr::c]"},
+	{"unknown-function", "b[not(c)]", "b[nt(c)]"},
+}
+
+func c17ArgDamage(c *Case) {
+	names := make([]string, 0, len(xref.FuncArity))
+	for n := range xref.FuncArity {
+		names = append(names, n)
+	}
+	sort.Strings(names)
+	fn := names[c.Index]
+	ar := xref.FuncArity[fn]
+	maxN := ar[1]
+	if maxN < 0 {
+		maxN = 5
+	}
+	for n := ar[0]; n <= maxN; n++ {
+		if n == 0 {
+			continue
+		}
+		for pos := 0; pos < n; pos++ {
+			for _, br := range c17ArgBroken {
+				mk := func(arg string) string {
+					args := make([]string, n)
+					for i := range args {
+						args[i] = c17ArgDefaults[(i+pos)%len(c17ArgDefaults)]
+						if (fn == "matches" || fn == "replace") && i == 1 {
+							args[i] = "'a+'"
+						}
+					}
+					args[pos] = arg
+					return fn + "(" + strings.Join(args, ", ") + ")"
+				}
+				for _, host := range []string{"%s", "//a[%s]", "(%s) = 1", "//a[b = %s]/c", "not(%s)", "concat('x', %s)"} {
+					valid, dam := strings.ReplaceAll(host, "%s", mk(br.valid)), strings.ReplaceAll(host, "%s", mk(br.damaged))
+					// the undamaged text must be an expression for the reference (and is normally one for the engine too)
+					if ast, perr := xref.Parse(valid); perr != nil || xref.Validate(ast) != nil {
+						continue
+					}
+					if ast, perr := xref.Parse(dam); perr == nil && xref.Validate(ast) == nil {
+						c.Skip("the reference accepts the damaged text")
+						continue
+					}
+					c.Rep.Evals++
+					c.Count("damage:" + br.class)
+					c.Count("argdamage")
+					if ce, err := safeCompile(dam); err == nil && ce != nil {
+						c.Violation("DAMAGED-EXPRESSION-ACCEPTED", map[string]interface{}{"valid": valid, "damaged": dam, "damage": br.class, "function": fn, "argument_position": pos + 1, "arguments": n})
+						return
+					}
+					c.Nontrivial("argdamage|" + dam)
+				}
+			}
+		}
+	}
+	c.Sample(map[string]interface{}{"family": "argdamage", "function": fn, "arities": ar})
 }
